@@ -109,6 +109,15 @@ class ArrayConstraintBuilder(ConstraintOverrideVisitor):
         else:
             super().visit_constraint_if_else(c)
 
+    def visit_composite_field(self, f):
+        super().visit_composite_field(f)
+        if self.phase == 1 and self.do_copy_level == 0:
+            # A dynamic constraint may be referenced in this call, also through
+            # the index of a foreach that is unrolled later: the arrays it 
+            # iterates over are expanded like those of the class constraints
+            for c in f.constraint_dynamic_model_l:
+                c.accept(self)
+
     def visit_expr_indexed_dynref(self, e):
         if self.do_copy_level > 0:
             # Copy the reference with the foreach index resolved
